@@ -378,13 +378,27 @@ pub fn run(run: &Run) -> i32 {
                 items.push(json!({"kind": "puncture", "plen": plen, "bits": bits, "block": block}));
             }
         }
+        // rates that are inexact in binary: (pattern length, kept blocks, block size) sweeps in which a
+        // product or quotient of the rate can land one ulp below an integer
+        for plen in if run.thorough() { (7..=24usize).collect::<Vec<_>>() } else { (7..=16usize).collect::<Vec<_>>() } {
+            for t in 1..=plen {
+                let first: u32 = (1u32 << t) - 1;
+                for bits in [first, first << (plen - t)] {
+                    for block in [1usize, 2, 3, 4, 5, 7, 9, 12, 16, 17, 31, 33, 63, 64, 65, 100, 127, 129, 255, 257] {
+                        items.push(json!({"kind": "puncture", "plen": plen, "bits": bits, "block": block}));
+                    }
+                }
+            }
+        }
+        items.sort_by_key(|v| v.to_string());
+        items.dedup();
         acc = par_items(&items, |it, a| replay_element(it, a));
     }
     finish(
         run,
         acc,
         Coverage {
-            rule: "every (columns C, rows R, backward) with C,R <= bound on identity-valued vectors of i32/f64/u8 and all GF2 bit-planes; every boolean pattern (>=1 true) up to the length bound x every block size; every length 1..30 for the error clause; plus interleaver shapes and puncturing block sizes around 64, 256, 4096, 8192 (thorough: 65536) elements. Enumeration is a duplicate-free product; non-trivial = C>1 and R>1 (interleaver), pattern that really removes a block (puncturer), genuinely indivisible length (error clause).".into(),
+            rule: "every (columns C, rows R, backward) with C,R <= bound on identity-valued vectors of i32/f64/u8 and all GF2 bit-planes; every boolean pattern (>=1 true) up to the length bound x every block size; every length 1..30 for the error clause; plus patterns of 7..16 (24) blocks keeping the first / last t blocks for every t x 20 block sizes (rates inexact in binary); plus interleaver shapes and puncturing block sizes around 64, 256, 4096, 8192 (thorough: 65536) elements. Enumeration is a duplicate-free product; non-trivial = C>1 and R>1 (interleaver), pattern that really removes a block (puncturer), genuinely indivisible length (error clause).".into(),
             exhaustive: true,
             extra: serde_json::Map::new(),
             graph: None,
